@@ -213,3 +213,32 @@ def typed_writes(w: Walker, repo: Repo) -> List[TypedWrite]:
             out.append(TypedWrite(fi, ev, owner, tgt[2], kind))
     w._typed_writes = out  # type: ignore
     return out
+
+
+def attr_mutations(w: Walker, repo: Repo) -> List[Tuple[FuncInfo, Event, str, str]]:
+    """every in-place change of something reached through an attribute, whatever the type of its holder:
+    `X.attr.mutator(..)`, `X.attr[k] = ..`, `del X.attr[k]` -> (function, event, attr, kind). Computed once per Walker."""
+    cached = getattr(w, "_attr_mutations", None)
+    if cached is not None:
+        return cached
+    out: List[Tuple[FuncInfo, Event, str, str]] = []
+    for fi in repo.all_functions():
+        if w.transparent(fi.qualname):
+            continue
+        try:
+            s = w.summary(fi.qualname, 0)
+        except Exception:
+            continue
+        for ev in s.events:
+            if ev.chain:
+                continue
+            tgt = None
+            kind = ev.kind
+            if ev.kind in ("store", "del") and ev.term[0] == "s":
+                tgt, kind = ev.term[1], "item-" + ev.kind
+            elif ev.kind == "call" and ev.parts and ev.parts[0][0] == "a" and ev.parts[0][2] in MUTATORS:
+                tgt, kind = ev.parts[0][1], "call:" + ev.parts[0][2]
+            if tgt is not None and tgt[0] == "a":
+                out.append((fi, ev, tgt[2], kind))
+    w._attr_mutations = out  # type: ignore
+    return out
